@@ -175,6 +175,21 @@ fn dump_body<'tcx>(tcx: TyCtxt<'tcx>, def: rustc_span::def_id::LocalDefId, body:
             }
         }
     }
+    out.push_str("},\"upvars\":{");
+    // captured variables of a closure: debug entries rooted at the environment argument _1, keyed by capture field index
+    let mut first = true;
+    for v in &body.var_debug_info {
+        if let VarDebugInfoContents::Place(p) = &v.value {
+            if p.local.as_usize() == 1 && !p.projection.is_empty() {
+                let fld = p.projection.iter().find_map(|e| if let ProjectionElem::Field(f, _) = e { Some(f.as_usize()) } else { None });
+                if let Some(f) = fld {
+                    if !first { out.push(','); }
+                    first = false;
+                    let _ = write!(out, "{}:{}", esc(&format!("{}", f)), esc(v.name.as_str()));
+                }
+            }
+        }
+    }
     out.push_str("},\"blocks\":[");
     for (bi, (_bb, data)) in body.basic_blocks.iter_enumerated().enumerate() {
         if bi > 0 { out.push(','); }
